@@ -177,16 +177,29 @@ CONTRACTS.update({
 })
 
 
+def interrupt_alone(tr, outcome, raised, env, ex, s):
+    """C14: when an interrupt node is ready, the step starts exactly ONE worker, for the first ready interrupt - nothing else
+    runs in the step in which a run may pause; otherwise one worker per ready node."""
+    import z3
+    if "tasks" not in env:
+        return True  # the path ended before the workers were created
+    one = ex.eval_clause("len(ready_nodes) == 1 and ready_nodes[0].is_interrupt and ready_nodes[0] is interrupts[0] and ready_nodes[0] in old(ready_nodes) and len(tasks) == 1", s)
+    same = ex.eval_clause("ready_nodes is old(ready_nodes) and len(tasks) == len(ready_nodes)", s)
+    anyint = ex.eval_clause("any(n.is_interrupt for n in old(ready_nodes))", s)
+    return z3.If(anyint, one, same)
+
+
 CONTRACTS.update({
     AS + "run_superstep_async": dict(
-        props=["C02"],
+        props=["C02", "C14"],
         params=dict(SUPERSTEP_PARAMS, max_concurrency=OPT(INT)),
         returns=OBJ("GraphState"),
         may_raise={"BaseException": True},
         call_site="opaque",
         ensures=["result is not state"],
         modifies=[],
-        trace=[{"name": "C02 the collected outputs are written to the copy, never to the snapshot", "check": isolation(set())}],
+        trace=[{"name": "C02 the collected outputs are written to the copy, never to the snapshot", "check": isolation(set())},
+               {"name": "C14 a ready interrupt runs alone: one worker, for the first ready interrupt; otherwise one worker per ready node", "check": interrupt_alone}],
         loops=[{"modifies": ["new_state.values", "new_state.versions", "new_state.node_executions"], "invariant": ["new_state is not state"],
                 "body_trace": [{"name": "C02 outputs applied to the copy", "check": isolation(set())}]},
                {"modifies": ["new_state.values", "new_state.versions"], "invariant": []}],
